@@ -989,6 +989,8 @@ def gen_v4(rng):
         presel = [t0, rng.randint(1, T - t0), f0, rng.randint(1, F - f0)]
     cfg = dict(route='v4', ants=ants, T=T, F=F, need=need, dp=dp, cdp=cdp, n_accs=n_accs, seed=seed,
                drop_attr=drop, lose=lose, presel=presel,
+               decl_absent=(not need) and rng.random() < 0.4,      # no need_weights_power_scale key at all = scaled
+
                shuffle_bls=rng.random() < 0.6, weights=weights, wc=wc, select=sel,
                chunks=chunks_, wchunks=wchunks_,
                index=[rng.choice([None, 2]), rng.choice([None, 2])])
@@ -1006,15 +1008,19 @@ def _presel_dict(pre):
     return dict(dumps=slice(t0, t0 + tn), channels=slice(f0, f0 + fn))
 
 
-def _drop_hook(drop):
-    """telstate hook deleting (or emptying) one of the attributes _cbf_attrs needs."""
-    if drop in (None, 'lite'):
+def _drop_hook(drop, decl_absent=False):
+    """telstate hook deleting (or emptying) one of the attributes _cbf_attrs needs / the weight-scaling declaration."""
+    if drop in (None, 'lite') and not decl_absent:
         return None
     keys = {'int_time': 'corr_int_time', 'n_accs': 'corr_n_accs', 'corr_src_streams': 'corr_src_streams',
             'empty_corr_src': 'corr_src_streams', 'instrument_dev_name': 'feng_instrument_dev_name',
             'scale_factor_timestamp': 'i0_scale_factor_timestamp'}
 
     def hook(ts, cbid, stream):
+        if decl_absent:
+            ts.delete(ts.join(stream, 'need_weights_power_scale'))
+        if drop in (None, 'lite'):
+            return
         key = ts.join(stream, 'src_streams') if drop in ('src_streams', 'empty_src') else keys[drop]
         ts.delete(key)
         if drop in ('empty_src', 'empty_corr_src'):
@@ -1068,7 +1074,8 @@ def run_v4(ctx, cfg):
                                         'weights': tuple(tuple(c) for c in cfg['wchunks'])},
                                 need_weights_power_scale=cfg['need'], int_time=cfg['dp'],
                                 cbf=None if drop == 'lite' else (cfg['cdp'], cfg['n_accs'], 1712e6), tmp=v4.scratch_dir('c15'),
-                                lose=[('sdp_l0', nm, tuple(i)) for (nm, i) in lose], telstate_hook=_drop_hook(drop),
+                                lose=[('sdp_l0', nm, tuple(i)) for (nm, i) in lose],
+                                telstate_hook=_drop_hook(drop, cfg.get('decl_absent')),
                                 source_kwargs=None if pre is None else dict(preselect=_presel_dict(pre)),
                                 open_kwargs=None if pre is None else dict(preselect=_presel_dict(pre)))
                 d = x.d
@@ -1136,6 +1143,7 @@ def run_v4(ctx, cfg):
     dpf, cdpf = Fraction(cfg['dp']), Fraction(cfg['cdp'])
     ma = ctx.model([[158, [present, [cdpf.numerator, cdpf.denominator], cfg['n_accs'], [dpf.numerator, dpf.denominator], 1, []]]])[0]
     ctx.count('v4_drop_attr=%s' % drop)
+    ctx.count('v4_declaration=%s' % ('absent' if cfg.get('decl_absent') else 'unscaled' if cfg['need'] else 'scaled'))
     ctx.count('v4_lost_chunks=%d' % len(lose))
     ctx.count('v4_preselect=%s' % (pre is not None))
     m_avail = ma[0] == 1
@@ -1195,8 +1203,76 @@ def run_v4(ctx, cfg):
 
 
 # --------------------------------------------------------------------------- route v3
+def gen_axis_index(rng, n, want_fancy=None, count=None):
+    """one per-axis second-stage index on an axis of length n >= 1 as a JSON-able form:
+    ['all'] | ['slice', start, stop, step] | ['int', i] | ['list', [...]] | ['mask', [...]];
+    want_fancy forces a list / mask, count its number of kept positions."""
+    kind = rng.choice(['all', 'all', 'slice', 'slice', 'int', 'list', 'mask'])
+    if want_fancy:
+        kind = rng.choice(['list', 'mask'])
+    if kind == 'slice':
+        a = rng.choice([None, rng.randrange(n)])
+        b = rng.choice([None, rng.randint((a or 0) + 1, n + 1)])
+        return ['slice', a, b, rng.choice([None, 1, 2, 3])]
+    if kind == 'int':
+        return ['int', rng.randrange(n)]
+    if kind in ('list', 'mask'):
+        k = count if count is not None else rng.randint(1, n)
+        k = max(1, min(k, n))
+        pos = sorted(rng.sample(range(n), k))
+        if kind == 'list':
+            return ['list', pos]
+        return ['mask', [int(i in pos) for i in range(n)]]
+    return ['all']
+
+
+def gen_index3(rng, shape):
+    """second-stage index on up to three axes; the class 'advanced indices on two or three axes with the same
+    number of kept positions' (where numpy's pairwise rule would apply) is generated on purpose."""
+    T, F, B = shape
+    r = rng.random()
+    if r < 0.15:
+        return []
+    if r < 0.55:
+        k = rng.randint(1, min(T, F))
+        third = rng.random()
+        idx = [gen_axis_index(rng, T, True, k), gen_axis_index(rng, F, True, k)]
+        if third < 0.35:
+            idx.append(gen_axis_index(rng, B, True, min(k, B)))
+        elif third < 0.7:
+            idx.append(gen_axis_index(rng, B))
+        return idx
+    n_axes = rng.randint(1, 3)
+    return [gen_axis_index(rng, n) for n in shape[:n_axes]]
+
+
+def index_positions(form, n):
+    """(kept positions, axis dropped?) of one per-axis index form"""
+    if form[0] == 'all':
+        return list(range(n)), False
+    if form[0] == 'slice':
+        return list(range(n))[slice(form[1], form[2], form[3])], False
+    if form[0] == 'int':
+        return [form[1]], True
+    if form[0] == 'list':
+        return list(form[1]), False
+    return [i for i, m in enumerate(form[1]) if m], False
+
+
+def index_object(form):
+    if form[0] == 'all':
+        return slice(None)
+    if form[0] == 'slice':
+        return slice(form[1], form[2], form[3])
+    if form[0] == 'int':
+        return int(form[1])
+    if form[0] == 'list':
+        return list(form[1])
+    return np.array(form[1], bool)
+
+
 def gen_v3(rng):
-    T, F = rng.randint(2, 4), rng.randint(1, 4)
+    T, F = rng.randint(2, 5), rng.randint(1, 5)
     ants = ['m000', 'm001'][:rng.randint(1, 2)]
     n = 2 * len(ants)
     B = n * (n + 1) // 2
@@ -1209,7 +1285,46 @@ def gen_v3(rng):
                 w_uint8=rng.random() < 0.4, w=w, wc=wc, seed=rng.randrange(10 ** 6),
                 wsel=rng.choice([None, None, None, '', 'all', 'precision', 'bogus', 'precision,bogus', 'bogus, precision',
                                  ['bogus'], ['bogus', 'precision'], [], ['precision', 'precision']]),
-                keep=[rng.random() < 0.8 for _ in range(T)])
+                keep=[rng.random() < 0.8 for _ in range(T)], index_seed=rng.randrange(10 ** 6))
+
+
+
+def _check_v3_index(ctx, cfg, forms, got, err, w, wc, selected, F, B):
+    """d.weights[index] against the model of the second-stage index (outer: per axis) on the selected arrays."""
+    T = w.shape[0]
+    dims = (T, F, B)
+    forms3 = list(forms) + [['all']] * (3 - len(forms))
+    pos, drop = zip(*[index_positions(f_, n) for f_, n in zip(forms3, dims)])
+    n_fancy = sum(f_[0] in ('list', 'mask') for f_ in forms3)
+    cls = 'fancy%d' % n_fancy + ('+int' if any(drop) else '')
+    eq = n_fancy >= 2 and len({len(p_) for f_, p_ in zip(forms3, pos) if f_[0] in ('list', 'mask')}) == 1
+    ctx.count('v3_index=%s%s' % (cls, ';equal_counts' if eq else ''))
+    if err is not None:
+        # every generated form is legal (in range, sorted, non-empty): an exception is a defect of the route
+        ctx.disagree('route=v3;obs=weights_indexed;index=%s;symptom=raises;exc=%s' % (cls, err), cfg, err, 'array',
+                     'd.weights[%s] raised' % (forms,), kind='tie')
+        return
+    cells_w = [[[lit_wire(lit(x)) for x in cell] for cell in row] for row in w.tolist()]
+    cells_wc = [[lit_wire(lit(x)) for x in row] for row in wc.tolist()]
+    mo = ctx.model([[1511, [int(selected), int(cfg['have_w']), int(cfg['have_wc']), cells_w, cells_wc,
+                            list(pos[0]), list(pos[1]), list(pos[2])]]])[0]
+    want_shape = tuple(len(p_) for p_, d_ in zip(pos, drop) if not d_)
+    if tuple(got.shape) != want_shape:
+        ctx.disagree('route=v3;obs=weights_indexed;index=%s;symptom=shape' % cls, cfg, list(got.shape), list(want_shape),
+                     'shape of d.weights[%s]' % (forms,))
+        return
+    full = np.asarray(got).reshape([len(p_) for p_ in pos])
+    for i in range(len(pos[0])):
+        for j in range(len(pos[1])):
+            for k in range(len(pos[2])):
+                mv = model_val(mo[i][j][k])
+                if same_val(full[i, j, k], mv, ctx) is False:
+                    ctx.disagree('route=v3;obs=weights_indexed;index=%s;equal_counts=%s;have_w=%s;have_wc=%s;symptom=wrong_value'
+                                 % (cls, eq, cfg['have_w'], cfg['have_wc']), dict(cfg, index=list(forms)),
+                                 dict(at=[i, j, k], value=str(full[i, j, k])), str(mv),
+                                 'd.weights[%s][%d,%d,%d] is not the product of the stored arrays at dump %d, channel %d, '
+                                 'product %d of the selection' % (forms, i, j, k, pos[0][i], pos[1][j], pos[2][k]))
+                    return
 
 
 def run_v3(ctx, cfg):
@@ -1247,6 +1362,16 @@ def run_v3(ctx, cfg):
                 keep[:] = True
                 d.select(**wkw)
             got = d.weights[:]
+            # a second-stage index on the same data set (every form, on one to three axes)
+            idx_forms, got2, err2 = None, None, None
+            if 'index_seed' in cfg or 'index' in cfg:
+                import random as _random
+                shape_sel = (int(keep.sum()), F, B)
+                idx_forms = cfg['index'] if 'index' in cfg else gen_index3(_random.Random(cfg['index_seed']), shape_sel)
+                try:
+                    got2 = d.weights[tuple(index_object(f_) for f_ in idx_forms)]
+                except (IndexError, ValueError, TypeError) as e2:
+                    err2 = type(e2).__name__
         except Exception as e:
             ctx.disagree('route=v3;symptom=raises;exc=%s;have_w=%s;have_wc=%s' % (type(e).__name__, cfg['have_w'], cfg['have_wc']),
                          cfg, repr(e)[:300], 'weights', 'opening / reading weights of a v3 file raised')
@@ -1299,9 +1424,11 @@ def run_v3(ctx, cfg):
                 break
         if n < 0:
             break
+    if idx_forms is not None:
+        _check_v3_index(ctx, cfg, idx_forms, got2, err2, w[ti], wc[ti], selected, F, B)
     ctx.traces_validated += 1
     ctx.note_case(cfg_key(cfg), nontrivial=bool(cfg['have_w'] or cfg['have_wc']),
-                  sample=dict(route='v3', have_w=cfg['have_w'], have_wc=cfg['have_wc'], weights_request=wsel,
+                  sample=dict(route='v3', have_w=cfg['have_w'], have_wc=cfg['have_wc'], weights_request=wsel, index=idx_forms,
                               shape=[len(ti), F, B]))
     ctx.count('route=v3')
     ctx.count('v3_request=%s' % ('default' if wsel is None else repr(wsel)))
@@ -1608,7 +1735,7 @@ def run(ctx):
         return random.Random(ctx.rng.getrandbits(48))
     # (route, generator, quick, thorough); VERIF_C15_ROUTES=a,b restricts the run (development aid only)
     plan = [('kernel', gen_kernel, 250, 6000), ('vfw', gen_vfw, 90, 1500), ('store', gen_store, 110, 2000),
-            ('lookup', gen_lookup, 16, 200), ('avg', gen_avg, 300, 8000), ('v4', gen_v4, 36, 320), ('v3', gen_v3, 24, 160),
+            ('lookup', gen_lookup, 16, 200), ('avg', gen_avg, 300, 8000), ('v4', gen_v4, 36, 320), ('v3', gen_v3, 48, 400),
             ('vv', gen_vv, 10, 120)]
     only = [r for r in os.environ.get('VERIF_C15_ROUTES', '').split(',') if r]
     for route, gen, nq, nt in plan:
